@@ -29,24 +29,25 @@ Definition zsum (l : list Z) : Z := fold_right Z.add 0 l.
 
 (* ======================= convnd.hpp: shape helpers, loop for loop ======================= *)
 
-(* :12  result = 1...; result[-np-2] = groups; result[-np-1] = C/groups; spatial copied.  The batch extent is
-   never copied (result[0] stays 1). *)
+(* :12  result = 1...; batched input: result[0] = N; result[-np-3] = groups; result[-np-1] = C/groups; spatial
+   copied:  (N,C,sp..) -> (N,g,1,C/g,sp..) *)
 Definition conv_reshape_input (src : list Z) (g np : Z) : list Z :=
   let r := fillz 1 (zlen src + 2) in
-  let r := zset r (- np - 2) g in
+  let r := if np + 1 <? zlen src then zset r 0 (zat src 0) else r in
+  let r := zset r (- np - 2 - 1) g in
   let r := zset r (- np - 2 + 1) (zat src (- np - 1) / g) in
   for_ 1 (np + 1) (fun r i => zset r (- i) (zat src (- i))) r.
 
-(* :52  (O, C/g, k..) -> (O/g, g, C/g, k..) : outch_axis = 0, group_axis = 1 *)
+(* :58  (O, C/g, k..) -> (g, O/g, C/g, k..) : group_axis = 0, outch_axis = 1 *)
 Definition conv_reshape_weight (src : list Z) (g np : Z) : list Z :=
   let sd := zlen src in
   let r := fillz 1 (sd + 1) in
   let r := for_ 1 (sd - (np - 1) + 1) (fun r i => zset r (- i) (zat src (- i))) r in
   let r := for_ 0 (np - 1) (fun r i => zset r i (zat src i)) r in
-  let r := zset r 1 g in
-  zset r 0 (zat src 0 / g).
+  let r := zset r 1 (zat src 0 / g) in
+  zset r 0 g.
 
-(* :93  (N, O/g, g, sp..) -> (N, O/g * g, sp..) *)
+(* :99  (N, g, O/g, sp..) -> (N, g * O/g, sp..) *)
 Definition conv_reshape_reduce (src : list Z) (g np : Z) : list Z :=
   let r := fillz 0 (zlen src - 1) in
   let r := for_ 0 (np + 1) (fun r i => zset r (- i) (zat src (- i))) r in
@@ -69,10 +70,10 @@ Definition conv_sum_axes (np : Z) : list Z := map (fun i => - (i + 1)) (zrange n
 (* run-time argument kinds of stride / padding / dilation *)
 Inductive sarg := ANone | AScalar (v : Z) | AList (l : list Z).
 
-(* :261 spacing[i] = dilation[i] - 1  (paired with window_axis[i] = -(i+1): dilation[0] goes to the LAST axis) *)
+(* :267 spacing[i] = dilation[np-1-i] - 1  (paired with window_axis[i] = -(i+1): dilation[0] is the first plane) *)
 Definition conv_expand_spacing (dil : sarg) (np : Z) : list Z :=
   match dil with
-  | AList l => map (fun i => znth l i - 1) (zrange np)
+  | AList l => map (fun i => znth l (np - 1 - i) - 1) (zrange np)
   | AScalar d => map (fun _ => d - 1) (zrange np)
   | ANone => []
   end.
@@ -261,9 +262,11 @@ Definition convnd_shape (np : Z) (ishape wshape : list Z) (stride pad dil : sarg
   option_map vshape (convnd_view np (v_array ishape []) (v_array wshape []) None stride pad dil g).
 
 (* ======================= pooling ======================= *)
-(* index/pooling.hpp:32  float(n + 0 - ((k-1)*1+1)) / s + 1, then constexpr_ceil / constexpr_floor *)
+(* index/pooling.hpp:32  float(n + 0 - ((k-1)*1+1)) / s + 1, then constexpr_floor, or constexpr_ceil followed by
+   "if ((res - 1) * stride >= n + pad) res -= 1"  (pad = 0) *)
 Definition pool_extent (ceil : bool) (n k s : Z) : Z :=
-  if ceil then cdiv (n - k) s + 1 else (n - k) / s + 1.
+  if ceil then (let o := cdiv (n - k) s + 1 in if n + 0 <=? (o - 1) * s then o - 1 else o)
+  else (n - k) / s + 1.
 Definition shape_pool2d (shape ks ss : list Z) (ceil : bool) : list Z :=
   let d := zlen shape in
   firstn (Z.to_nat (d - 2)) shape
@@ -378,15 +381,13 @@ Definition conv_spec (np : Z) (ishape idata wshape wdata : list Z) (bias : optio
   else None.
 
 (* the group the MODEL pairs with output channel o: read off conv_reshape_weight / conv_reshape_reduce
-   ((N,O) is (N,O/g,g) in row-major order, the g axis is the group axis of the reshaped input): o mod g (interleaved) *)
-Definition model_group (g o : Z) : Z := o mod g.
+   ((N,O) is (N,g,O/g) in row-major order, the g axis is the group axis of the reshaped input): the leading
+   coordinate of o in (g, O/g) *)
+Definition model_group (O g o : Z) : Z := znth (compute_indices o [g; O / g]) 0.
 
 (* domain on which the element theorem is claimed (and checked on every correspondence case) *)
 Definition conv_dom (np : Z) (ishape wshape : list Z) (bias : option (list Z)) (stride pad dil : sarg) (g : Z) : bool :=
-  valid_conv_args np ishape wshape bias stride pad dil g
-  && (znth ishape 0 =? 1)
-  && ((g =? 1) || (znth wshape 0 =? g))
-  && (match dil with AList l => forallb (fun d => d =? znth l 0) l | _ => true end).
+  valid_conv_args np ishape wshape bias stride pad dil g.
 
 (* torch.nn.MaxPool2d / AvgPool2d (padding 0, dilation 1):  floor or ceil of (n - k)/s + 1, and in ceil mode the
    last window must start inside the input *)
@@ -414,9 +415,5 @@ Definition pool_spec {R} (red : list Z -> option R) (shape data ks ss : list Z) 
   | Some e => Some (dst, e)
   | None => None
   end.
-(* ceil mode agrees with PyTorch exactly when no window starts at or beyond the extent *)
-Definition pool_dom (shape ks ss : list Z) (ceil : bool) : bool :=
-  valid_pool_args shape ks ss
-  && (negb ceil
-      || (((pool_extent true (zat shape (-2)) (zat ks (-2)) (zat ss (-2)) - 1) * zat ss (-2) <? zat shape (-2))
-          && ((pool_extent true (zat shape (-1)) (zat ks (-1)) (zat ss (-1)) - 1) * zat ss (-1) <? zat shape (-1)))).
+(* both modes agree with PyTorch on every valid argument *)
+Definition pool_dom (shape ks ss : list Z) (ceil : bool) : bool := valid_pool_args shape ks ss.
